@@ -282,6 +282,13 @@ fn gen_showdown(tier: &str, rng: &mut Rng, w: &mut dyn Write) {
         let cards: Vec<usize> = rng.distinct(5 + 2 * np, 52).into_iter().map(|x| x as usize).collect();
         emit_showdown(w, probs[i % probs.len()], &cards[..5], &cards[5..]);
     }
+    // more players than a full table: up to 23 pairs of distinct hole cards fit beside a board (the winner
+    // bookkeeping must not depend on a small fixed width)
+    for i in 0..(if thorough { 20_000 } else { 1_500 }) {
+        let np = 11 + rng.below(13) as usize;
+        let cards: Vec<usize> = rng.distinct(5 + 2 * np, 52).into_iter().map(|x| x as usize).collect();
+        emit_showdown(w, probs[i % probs.len()], &cards[..5], &cards[5..]);
+    }
     // tie-heavy boards: the board plays, kickers shared
     for i in 0..(if thorough { 200_000 } else { 20_000 }) {
         let board = tie_board(i, rng);
@@ -519,6 +526,14 @@ pub fn adversarial_iter_cases(rng: &mut Rng, n: usize) -> Vec<IterCase> {
 }
 
 pub fn gen_iter_c02(tier: &str, rng: &mut Rng, w: &mut dyn Write) {
+    // for every card X: two players who both hold X (nothing is legal), and X against a range through X
+    for x in 0..52usize {
+        let flop = [(x + 1) % 52, (x + 2) % 52, (x + 3) % 52];
+        let a = (x + 10) % 52;
+        let b = (x + 20) % 52;
+        emit_iter(w, &IterCase { mode: "digest", nextra: 1, flop, scope: None, rescope: false,
+            ranges: vec![vec![(combo_code(x, a), 0x3F800000)], vec![(combo_code(x, b), 0x3F000000)]] });
+    }
     // C02 speaks of the unscoped enumeration: scoped inputs belong to C04's generator
     for mut c in adversarial_iter_cases(rng, if tier == "thorough" { 1200 } else { 120 }) {
         c.scope = None;
@@ -641,6 +656,20 @@ pub fn gen_iter_c04(tier: &str, rng: &mut Rng, w: &mut dyn Write) {
         emit_iter(w, &IterCase { mode: "digest", nextra: 1, flop, scope: Some((47, 48, 48, 49)), rescope: false,
             ranges: vec![random_range(rng, size, true), random_range(rng, 3, true)] });
     }
+    // empty scopes (from == to) at seeded positions and at the ends; chains with repeated cut points
+    for i in 0..(if thorough { 400 } else { 60 }) {
+        let flop = random_flop(rng);
+        let p = match i % 4 { 0 => (0, 1), 1 => (48, 49), 2 => (47, 48), _ => random_pos(rng) };
+        let ranges: Vec<Vec<(usize, u32)>> = vec![random_range(rng, 2, false), random_range(rng, 2, false)];
+        emit_iter(w, &IterCase { mode: "digest", nextra: 2, flop, scope: Some((p.0, p.1, p.0, p.1)), rescope: i % 5 == 0, ranges: ranges.clone() });
+        if i % 3 == 0 {
+            let q = random_pos(rng);
+            let (a, b) = if p <= q { (p, q) } else { (q, p) };
+            for (x, y) in [(a, a), (a, b), (b, b), (b, (48, 49))] {
+                emit_iter(w, &IterCase { mode: "digest", nextra: 1, flop, scope: Some((x.0, x.1, y.0, y.1)), rescope: false, ranges: ranges.clone() });
+            }
+        }
+    }
     // chains: consecutive scopes cut at seeded positions (each piece is compared with the specification's piece)
     for _ in 0..(if thorough { 300 } else { 25 }) {
         let flop = random_flop(rng);
@@ -704,6 +733,14 @@ pub fn gen_iter_c08(tier: &str, rng: &mut Rng, w: &mut dyn Write) {
     // a blocked run that ends the enumeration (the last rows hold the blocked card): flop of aces, player holds deuces
     emit_iter(w, &IterCase { mode: "digest-nospec", nextra: 1, flop: [0, 1, 2], scope: Some((46, 47, 48, 49)), rescope: false,
         ranges: vec![vec![(combo_code(50, 51), one)], wide.clone()] });
+    // many players (more than 8 / 16 seats), one or two combos each, a few rows of positions
+    for &np in &[9usize, 10, 16, 17, 18, 22] {
+        // hole cards avoid the first four deck cards, so the deals at the first positions are playable
+        let cards: Vec<usize> = rng.distinct(2 * np + 1, 45).into_iter().map(|x| x as usize + 4).collect();
+        let mut ranges: Vec<Vec<(usize, u32)>> = (0..np).map(|i| vec![(combo_code(cards[2 * i], cards[2 * i + 1]), one)]).collect();
+        ranges[np - 1].push((combo_code(cards[2 * np], cards[0]), one));
+        emit_iter(w, &IterCase { mode: "digest-nospec", nextra: 1, flop, scope: Some((0, 1, 0, 4)), rescope: false, ranges });
+    }
     // structured adversarial inputs (ranges wholly blocked by the flop, shared-card ranges, mutual blocking)
     for mut c in adversarial_iter_cases(rng, if thorough { 300 } else { 36 }) {
         c.mode = "digest-nospec";
